@@ -719,6 +719,8 @@ func checkC04(w *World, c *Check, tier string) {
 	c.floor("C04.bounds", 3)
 	c.floor("C04.loop", 10)
 	c.floor("C04.rec", 2)
+	c.floor("C04.swap", 1)
+	checkSwapRecursion(w, c)
 	entries := decodeEntries(w)
 	c.stat("decode_entry_points", len(entries))
 	if len(entries) < 20 {
@@ -732,7 +734,7 @@ func checkC04(w *World, c *Check, tier string) {
 	c.stat("decode_closure_functions", len(D))
 
 	// ---- bounds ----
-	sites, err := compilerUnprovenBounds(w.Dir, "")
+	sites, err := compilerUnprovenBounds(w.Dir, w.Arch)
 	if err != nil {
 		c.bad("C04.bounds", "compiler", "-", "cannot obtain the compiler's bounds-check report: "+err.Error())
 	} else {
